@@ -231,5 +231,6 @@ def register(reg):
                           # an inherited docstring is rendered, and falls back, in the context of the object it is defined on
                           "implies(called('safe_to_stan'), arg_of('safe_to_stan', 'ctx') == source and "
                           "arg_of('safe_to_stan', 'parsed_doc') == obj.parsed_docstring and arg_of('safe_to_stan', 'report') and "
+                          "arg_of('safe_to_stan', 'linker') == source.docstring_linker and "
                           "arg_of('safe_to_stan', 'fallback') == ext('pydoctor.epydoc2stan.format_docstring_fallback') and "
                           "arg_of('safe_to_stan', 'section') == 'docstring')"])
